@@ -74,6 +74,24 @@ class SInt:
     def __bool__(self):
         return _ctx.decide(self.z != 0)
 
+    # linear arithmetic (user methods such as `self.a + k`): the result is a new symbolic integer
+    def __add__(self, other):
+        o = zint(other)
+        return NotImplemented if o is NotImplemented else SInt(self.z + o)
+
+    __radd__ = __add__
+
+    def __sub__(self, other):
+        o = zint(other)
+        return NotImplemented if o is NotImplemented else SInt(self.z - o)
+
+    def __rsub__(self, other):
+        o = zint(other)
+        return NotImplemented if o is NotImplemented else SInt(o - self.z)
+
+    def __neg__(self):
+        return SInt(-self.z)
+
     __hash__ = None  # never hashed by the engine (HashedValue hashes ids)
 
     def __repr__(self):
